@@ -918,6 +918,25 @@ func waitScReadAcceptedSockErr(e *waitEnv, r *waitResult, sc *waitScenario) {
 	}
 }
 
+// A writer blocked on a full send window; the peer's receive window is as small as that send window
+// and its application does not read, so the acknowledgements that empty the send buffer advertise a
+// window of 0.  Write is admitted while fewer than a send window of segments are pending (C04),
+// whatever the peer advertises: the blocked writer must be woken by those acknowledgements.
+func waitScWritePeerWindowClosed(e *waitEnv, r *waitResult, sc *waitScenario) {
+	sd := &waitWriteSide
+	e.ss.SetWindowSize(32, waitWnd)
+	calls := waitStart(e, r, sc, sd, 1)
+	if calls == nil || !waitExpectBlocked(e, r, sd, calls, "before the acknowledgements") {
+		return
+	}
+	if err := sd.wake(e, 1); err != nil {
+		r.setupErr = err
+		return
+	}
+	waitExpectAll(e, r, sd, calls, "written", time.Time{}, time.Now().Add(waitMargin), "write-window-lost-wakeup:peer-window-closed", "",
+		"the send buffer was acknowledged empty by a peer that advertises a closed window")
+}
+
 func waitScReadSeparate(n int) func(*waitEnv, *waitResult, *waitScenario) {
 	return func(e *waitEnv, r *waitResult, sc *waitScenario) {
 		sd := &waitReadSide
@@ -1129,6 +1148,7 @@ func waitCatalogue(thorough bool, rng *vrng) []*waitScenario {
 	}
 	add("wake-short-buffer", "Read", 2, true, waitScReadShort)
 	add("wake-fec-recovery", "Read", 1, false, waitScReadFecRecovery)
+	add("wake-peer-window-closed", "Write", 1, true, waitScWritePeerWindowClosed)
 	add("accepted-session-socket-error-after-listener-close", "Read", 1, true, waitScReadAcceptedSockErr)
 	// one datagram, several messages and/or a message longer than a buffer, >= 3 readers: each of
 	// the three successful paths of Read (bufptr, direct, recvbuf) is in turn the LAST one that
